@@ -53,32 +53,15 @@ Definition step_eqb (c : case) (m : mstep) (o : ostep) : bool :=
 Definition model (cf : tcfg) (c : case) : list mstep := run cf (ver c) (tbl c) [] (ops c).
 Definition same (c : case) (m : list mstep) : bool := list_eqb2 (step_eqb c) m (observed c).
 
-(* the recorded findings as model variants *)
-Definition variants : list tcfg :=
-  [ mkT false false false; mkT true false false; mkT false true false; mkT false false true;
-    mkT true true false; mkT true false true; mkT false true true ].
-
-(* the first operation at which the record departs from the demanded behaviour tells which finding shows:
-   1 = per-entry data not in the protocol's action order, 2 = panic on re-adding the held entry,
-   3 = profile change not sent to the client *)
-Fixpoint classify (c : case) (h : list top) (m : list mstep) (o : list ostep) : N :=
-  match h, m, o with
-  | op :: h', x :: m', y :: o' =>
-    if step_eqb c x y then classify c h' m' o'
-    else match op with
-         | AddLive _ => 2
-         | _ => if Nat.eqb (length (m_pkts x)) (length (o_pkts y)) then 1 else 3
-         end
-  | _, _, _ => 1
-  end.
-
 Definition holds_P (c : case) : bool :=
   Nat.eqb (length (observed c)) (length (ops c)) &&
   agree (ver c) (Some []) (map (fun o => (o_ret o, o_pkts o, oview c o)) (observed c)).
 
+(* Findings C28-1..3 are fixed (commits d54f770, d5f50a6, eb9ac68): no verdict is excused any more.
+   A record in which the client cannot decode a packet, ends with another view than the proxy's, or in
+   which a call panics falsifies [holds_P] and is a violation; any other departure from the model of
+   today's code is a mismatch. *)
 Definition judge (c : case) : verdict :=
   let good := holds_P c in
-  if same c (model spec_tcfg c) then (if good then VOk else VViolation)
-  else if existsb (fun cf => same c (model cf c)) variants
-       then VKnown (classify c (ops c) (model spec_tcfg c) (observed c))
-       else if good then VMismatch else VViolation.
+  if same c (model impl_tcfg c) then (if good then VOk else VViolation)
+  else if good then VMismatch else VViolation.
